@@ -314,6 +314,47 @@ def signed_offsets(ck, P):
     ck.floor(R, n, 1)
 
 
+def slide_order(ck, P, R="ORDER/slide-rebase"):
+    """fill_window's slide rebases strstart by the window size and then clamps `insert` to the rebased strstart
+    (zlib: `s->strstart -= wsize; ... if (s->insert > s->strstart) s->insert = s->strstart;`).  A clamp evaluated against
+    the un-rebased strstart never takes effect, and `strstart - insert` underflows a few lines later."""
+    fn = P.fn(Z + "deflate::fill_window")
+    if not ck.anchor("fn deflate::fill_window", fn):
+        return
+    ck.use_fn(fn)
+    reb, clamp = [], []
+    for bi, si, lhs, rv, st in fn.assignments():
+        pe = fn.place_expr(lhs)
+        root, fp = mir.field_path(pe)
+        if not fp:
+            continue
+        e = fn.rvalue_expr(rv)
+        if fp[-1] == "strstart" and coup_adjust("strstart", e) == -1:
+            reb.append((bi, si, st))
+        if fp[-1] == "insert" and mir.mentions_field(e, "strstart") and coup_adjust("insert", e) is None:
+            clamp.append((bi, si, st))
+    for c in fn.live_calls(r"::min$"):
+        if c.dest and fn.place_expr(c.dest) and mir.field_path(fn.place_expr(c.dest))[1][-1:] == ("insert",) \
+                and any(mir.mentions_field(a, "strstart") for a in fn.call_args(c)):
+            clamp.append((c.bb, 10 ** 6, c.raw))
+    if not (ck.anchor("rebase `strstart -= wsize` in fill_window", len(reb) == 1, where(fn)) and
+            ck.anchor("clamp of `insert` against strstart in fill_window", len(clamp) >= 1, where(fn))):
+        return
+    rb, rs, rst = reb[0]
+    for i, (cb, cs_, cst) in enumerate(clamp):
+        after = (cb == rb and (cs_ if isinstance(cs_, int) else 10 ** 6) > (rs if isinstance(rs, int) else -1)) or (cb != rb and fn.dominates(rb, cb))
+        ck.decide(after, R, "fill_window:insert-clamp#%d" % i, "evaluated after strstart was rebased",
+                  "fill_window clamps `insert` against strstart before strstart has been rebased by the window size: the clamp has no "
+                  "effect and `strstart - insert` can underflow (abort) once the pending inserts exceed the rebased position",
+                  where(fn, cst.get("line") if isinstance(cst, dict) else None))
+
+
+def coup_adjust(field, e):
+    from .. import coup
+    a = coup.adjustment(field, e)
+    return a[0] if a else None
+
+
 def run(ck):
     P = prog("K1")
     ck.configs.add("K1")
@@ -323,6 +364,7 @@ def run(ck):
     abort.check(ck, P, roots, "ABORT/compress", abort_table.JUSTIFIED, api_fns=api, label="compression")
     guards(ck, P)
     signed_offsets(ck, P)
+    slide_order(ck, P)
     lint(ck, P)
     ck.assumptions += ["rustc MIR, lint levels", "justified-abort table confirmed by reading", "host target x86_64; K1"]
 
